@@ -116,6 +116,14 @@ fn main() {
             };
             println!("{j}");
         }
+        "fuzz-case" => {
+            // verif fuzz-case <ID> <family> <file>: the replay description of the case the generic fuzz target decodes from <file>
+            let id = static_id(pos.first().map(|s| s.as_str()).unwrap_or(""));
+            let family = pos.get(1).cloned().unwrap_or_default();
+            let data = std::fs::read(pos.get(2).cloned().unwrap_or_default()).unwrap_or_default();
+            let b = verif::fuzzbridge::start(id, &family);
+            println!("{}", b.call(&data, true).unwrap_or_default());
+        }
         "selftest" => {
             engine::install_panic_hook();
             let errs = selftest::run();
